@@ -508,6 +508,162 @@ pub fn execute(p: &Program, schedule: Vec<u8>, max_preempt: u32, trace: bool) ->
 
 mod driver;
 
+/// Litmus programs on the shim's atomics themselves: they check the memory-model layer of the engine (which values a load
+/// may return, which edges an acquire load gains) against outcomes the C11 model is known to allow / forbid.
+/// Returns the list of failed expectations.
+pub fn litmus() -> Vec<String> {
+    use portable_atomic::{AtomicUsize as A, Ordering as O};
+    use std::sync::Mutex;
+    let mut failed = Vec::new();
+    // explore all decision vectors of a two-thread program; collect the set of outcomes
+    fn outcomes(max_stale: u32, t1: fn(&'static A, &'static A) -> usize, t2: fn(&'static A, &'static A) -> usize) -> std::collections::BTreeSet<(usize, usize)> {
+        rt::MAX_STALE.store(max_stale, std::sync::atomic::Ordering::Relaxed);
+        let mut seen = std::collections::BTreeSet::new();
+        let mut prefix: Vec<u8> = Vec::new();
+        for _ in 0..20000 {
+            let x: &'static A = Box::leak(Box::new(A::new(0)));
+            let y: &'static A = Box::leak(Box::new(A::new(0)));
+            let res: &'static Mutex<(usize, usize)> = Box::leak(Box::new(Mutex::new((99, 99))));
+            rt::begin(prefix.clone(), u32::MAX, 10_000, false);
+            let h1 = rt::spawn(move || {
+                let r = t1(x, y);
+                res.lock().unwrap().0 = r;
+            });
+            let h2 = rt::spawn(move || {
+                let r = t2(x, y);
+                res.lock().unwrap().1 = r;
+            });
+            rt::join_all(vec![h1, h2]);
+            let rep = rt::end();
+            seen.insert(*res.lock().unwrap());
+            let d = &rep.decisions;
+            let mut i = d.len();
+            let mut next = None;
+            while i > 0 {
+                i -= 1;
+                if d[i].1 + 1 < d[i].0 {
+                    let mut np: Vec<u8> = d[..i].iter().map(|x| x.1).collect();
+                    np.push(d[i].1 + 1);
+                    next = Some(np);
+                    break;
+                }
+            }
+            match next {
+                Some(np) => prefix = np,
+                None => break,
+            }
+        }
+        seen
+    }
+    // --- message passing, everything relaxed: (flag seen, data stale) is allowed
+    let mp_relaxed = outcomes(
+        2,
+        |x, y| {
+            x.store(1, O::Relaxed);
+            y.store(1, O::Relaxed);
+            0
+        },
+        |x, y| {
+            let f = y.load(O::Relaxed);
+            let d = x.load(O::Relaxed);
+            f * 10 + d
+        },
+    );
+    if !mp_relaxed.contains(&(0, 10)) {
+        failed.push(format!("MP relaxed: outcome flag=1,data=0 not produced (got {:?})", mp_relaxed));
+    }
+    // --- message passing with release / acquire: flag=1,data=0 is forbidden
+    let mp_ra = outcomes(
+        2,
+        |x, y| {
+            x.store(1, O::Relaxed);
+            y.store(1, O::Release);
+            0
+        },
+        |x, y| {
+            let f = y.load(O::Acquire);
+            let d = x.load(O::Relaxed);
+            f * 10 + d
+        },
+    );
+    if mp_ra.contains(&(0, 10)) {
+        failed.push("MP release/acquire: forbidden outcome flag=1,data=0 was produced".to_string());
+    }
+    if !mp_ra.contains(&(0, 11)) || !mp_ra.contains(&(0, 0)) {
+        failed.push(format!("MP release/acquire: expected outcomes missing (got {:?})", mp_ra));
+    }
+    // --- read-read coherence: after reading the new value a thread never reads the old one again
+    let corr = outcomes(
+        2,
+        |x, _| {
+            x.store(1, O::Relaxed);
+            x.store(2, O::Relaxed);
+            0
+        },
+        |x, _| {
+            let a = x.load(O::Relaxed);
+            let b = x.load(O::Relaxed);
+            a * 10 + b
+        },
+    );
+    for (_, r) in &corr {
+        let (a, b) = (r / 10, r % 10);
+        if b < a {
+            failed.push(format!("CoRR: read {} then the older {}", a, b));
+        }
+    }
+    if !corr.contains(&(0, 12)) || !corr.contains(&(0, 2)) && !corr.contains(&(0, 1)) {
+        failed.push(format!("CoRR: expected outcomes missing (got {:?})", corr));
+    }
+    // --- a read-modify-write always reads the newest value: two increments never lose one
+    let rmw = outcomes(
+        2,
+        |x, _| x.fetch_add(1, O::Relaxed),
+        |x, _| x.fetch_add(1, O::Relaxed),
+    );
+    for (a, b) in &rmw {
+        if a + b != 1 {
+            failed.push(format!("RMW atomicity: both increments read {} / {}", a, b));
+        }
+    }
+    // --- release sequence through a relaxed RMW: acquire load of the RMW's value still sees the data
+    let relseq = outcomes(
+        2,
+        |x, y| {
+            x.store(1, O::Relaxed);
+            y.store(1, O::Release);
+            y.fetch_add(1, O::Relaxed);
+            0
+        },
+        |x, y| {
+            let f = y.load(O::Acquire);
+            let d = x.load(O::Relaxed);
+            f * 10 + d
+        },
+    );
+    if relseq.contains(&(0, 20)) || relseq.contains(&(0, 10)) {
+        failed.push(format!("release sequence: data=0 read after acquiring flag>=1 (got {:?})", relseq));
+    }
+    // --- with max_stale = 0 only sequentially consistent values appear
+    let sc = outcomes(
+        0,
+        |x, y| {
+            x.store(1, O::Relaxed);
+            y.store(1, O::Relaxed);
+            0
+        },
+        |x, y| {
+            let f = y.load(O::Relaxed);
+            let d = x.load(O::Relaxed);
+            f * 10 + d
+        },
+    );
+    if sc.contains(&(0, 10)) {
+        failed.push("max_stale=0: a non-SC outcome was produced".to_string());
+    }
+    failed
+}
+
 fn main() {
     std::process::exit(driver::main());
 }
